@@ -17,6 +17,8 @@ def check(ctx, rep):
     S.rule_E1(ctx, rep, 'R3-E1')
     S.rule_A2_A3(ctx, rep)
     S.rule_lock_discipline(ctx, rep, 'R3-D1', methods=('flush',))
+    # ... and a flush issued through a pointer to the sink (Arc/Box forwarding impls) reaches the sink's own flush
+    S.rule_forwarding_impls(ctx, rep, 'R3-F1', methods=('flush',))
     # "datagrams of the form described in C05": the buffered UDP/Unix sinks share the line writer, so every framing
     # premise of C05 is a premise here as well
     m = W.WriterModel(ctx, rep)
